@@ -28,6 +28,7 @@ func c07(c *Ctx) {
 	c07Write(c)
 	c07WholeLineBatches(c)
 	c07NewFileAfterSplit(c)
+	c07PositionIsFileSize(c)
 	c07DescriptorKept(c)
 }
 
